@@ -1,40 +1,54 @@
-(* The generator run as a state machine with EXPLICIT process-wide mutable state (C10, shared with C07).
+(* The generator process as a state machine with EXPLICIT process-wide mutable state (C10).
 
    What is modelled (src/nunavut/jinja/__init__.py, lang/_common.py, _postprocessors.py, lang/_language.py,
-   jinja/loaders.py):
+   jinja/loaders.py, _namespace.py):
 
-     gstate        everything that survives from one generated file to the next inside one interpreter:
-                     g_uniq   the UniqueNameGenerator singleton (translated: Generated/Gen_Uniq.v)
-                     g_pps    the line post-processor OBJECTS of the generator (self._post_processors); the
-                              LimitEmptyLines state record is the translated one (Generated/Gen_LinePP.v)
-                     g_cache  a memo table (functools.lru_cache on Language.get_dependency_builder /
-                              TokenEncoder.strop, DSDLTemplateLoader._type_to_template_lookup_cache)
-     prog          what rendering one template can do: emit text chunks, ask the unique-name generator
-                   (any number of times, adaptively), call a memoised pure function.  `render` maps
-                   (configuration, type object) to such a program -- that SIGNATURE is the assumption about
-                   the template engine: a template sees the type it is given (a pydsdl object carries the
-                   types it refers to by reference) and the process state only through these two operations.
-     gen_file      CodeGenerator._generate_code: reset the unique-name generator (iff the source does so before
-                   the lazy template generator is consumed: translated fact generate_code_resets_uniq), run
-                   the template, push the chunks through the line buffer and the SHARED processor objects
-                   (Gen/LinePP.v, LinePPInst.v), or write them verbatim when there is no line processor.
-     run           generate_all: a fold over the types in processing order.
+     pstate        everything that survives from one generated file to the next inside one interpreter:
+                     p_uniq   the UniqueNameGenerator singleton (class attribute; translated: Generated/Gen_Uniq.v)
+                     p_cache  one memo table standing for functools.lru_cache on Language.get_dependency_builder /
+                              TokenEncoder.strop / _make_textwrap and DSDLTemplateLoader._type_to_template_lookup_cache;
+                              a key is (identity of the object the method is bound to, arguments)
+                     p_gens   the live generator objects; each owns its line post-processor OBJECTS
+                              (CodeGenerator.__init__: self._post_processors, one LimitEmptyLines object per generator;
+                              the LimitEmptyLines state record is the translated one, Generated/Gen_LinePP.v), its
+                              configuration (language options + templates, an id) and the types of its namespace
+     tyobj         a pydsdl type object with the objects it refers to (the dependency closure as a tree); `resolve`
+                   builds it from the namespace the generator was given, and fails unless the closure is inside it
+     prog          what rendering one template can do: emit text chunks, ask the unique-name generator (any number of
+                   times, adaptively), call a memoised pure function.  `render` maps (configuration, type object) to
+                   such a program -- that SIGNATURE is the assumption about the template engine: a template sees the
+                   type it is given (with what it refers to) and the process state only through these two operations.
+     gen_file      CodeGenerator._generate_code: reset the unique-name generator (iff the source does so before the
+                   lazy template generator is consumed: translated fact generate_code_resets_uniq), run the template,
+                   push the chunks through the line buffer and the generator's processor objects (Gen/LinePP.v,
+                   LinePPInst.v), or write them verbatim when there is no line processor.
+     run_types     DSDLCodeGenerator.generate_all: a fold over the types in processing order (any list: the order
+                   comes from dict/set iteration of the namespace tree).
+     exec          a history: generator constructions and generate_all calls in one interpreter, in any interleaving.
 
-   `lel_shared` selects the behaviour of the line post-processor objects between files: true = the code as it
-   is (one LimitEmptyLines object for all files of a generator, never reset: known finding F-LEL-LEAK),
+   `lel_shared` selects the behaviour of the line post-processor objects between files: true = the code as it is (the
+   objects live as long as the generator, LimitEmptyLines._empty_line_count is never reset: known finding F-LEL-LEAK),
    false = counters start at zero for every file.  The check instantiates it from a probe of the real code.
 
-   Executable definitions only (extracted by coq/extraction/ExtractC10.v); proofs are in GenStateThm.v. *)
+   Executable definitions only (extracted by coq/extraction/ExtractC10.v); proofs are in GenStateThm*.v. *)
 From Verif Require Export GenStateDict LinePPInst Gen_Uniq.
 Open Scope N_scope.
 
 (* ---------------- memoisation: functools.lru_cache(maxsize) / a plain dict memo ---------------- *)
-Definition cache := list (str * str).          (* most recently used first *)
+Definition ckey := (N * str)%type.            (* (id(self), arguments) *)
+Definition ckey_eqb (a b : ckey) : bool := (fst a =? fst b) && str_eqb (snd a) (snd b).
+Definition cache := list (ckey * str).        (* most recently used first *)
 
-Fixpoint cache_remove (c : cache) (k : str) : cache :=
+Fixpoint cache_get (c : cache) (k : ckey) : option str :=
+  match c with
+  | [] => None
+  | (k', v) :: c' => if ckey_eqb k k' then Some v else cache_get c' k
+  end.
+
+Fixpoint cache_remove (c : cache) (k : ckey) : cache :=
   match c with
   | [] => []
-  | (k', v) :: c' => if str_eqb k k' then c' else (k', v) :: cache_remove c' k
+  | (k', v) :: c' => if ckey_eqb k k' then c' else (k', v) :: cache_remove c' k
   end.
 
 Definition cache_trim (maxsize : option nat) (c : cache) : cache :=
@@ -42,47 +56,97 @@ Definition cache_trim (maxsize : option nat) (c : cache) : cache :=
 
 (* a call of the wrapped function f through the cache: hit -> stored value, entry becomes most recent;
    miss -> compute, store, evict the least recently used entries beyond maxsize *)
-Definition lru_call (f : str -> str) (maxsize : option nat) (c : cache) (k : str) : cache * str :=
-  match dict_get c k with
+Definition lru_call (f : ckey -> str) (maxsize : option nat) (c : cache) (k : ckey) : cache * str :=
+  match cache_get c k with
   | Some v => ((k, v) :: cache_remove c k, v)
   | None => let v := f k in (cache_trim maxsize ((k, v) :: c), v)
   end.
+
+(* ---------------- type objects and the dependency closure ---------------- *)
+Notation tkey := (list N) (only parsing).                 (* full name + version *)
+Record decl := { d_body : str; d_deps : list tkey }.
+Definition universe := dict decl.                        (* the DSDL sources: what each definition says *)
+
+Inductive tyobj := TyObj (k : tkey) (body : str) (deps : list tyobj).
+
+Fixpoint map_opt {A B : Type} (f : A -> option B) (l : list A) : option (list B) :=
+  match l with
+  | [] => Some []
+  | a :: l' => match f a, map_opt f l' with Some b, Some bs => Some (b :: bs) | _, _ => None end
+  end.
+
+(* the object the front end builds for k when it is given the definitions I: exists iff the dependency closure
+   of k lies inside I (pydsdl refuses a namespace with an unresolved reference) *)
+Fixpoint resolve (fuel : nat) (U : universe) (I : list tkey) (k : tkey) : option tyobj :=
+  match fuel with
+  | O => None
+  | S f =>
+      if str_in k I then
+        match dict_get U k with
+        | Some d =>
+            match map_opt (resolve f U I) (d_deps d) with
+            | Some os => Some (TyObj k (d_body d) os)
+            | None => None
+            end
+        | None => None
+        end
+      else None
+  end.
+
+Definition resolve_in (U : universe) (I : list tkey) (k : tkey) : option tyobj := resolve (S (length U)) U I k.
 
 (* ---------------- what a template can do ---------------- *)
 Inductive prog :=
 | PDone
 | PEmit (chunk : str) (k : prog)
 | PUniq (key base_token prefix suffix : str) (k : str -> prog)   (* UniqueNameGenerator.get_instance()(...) *)
-| PMemo (q : str) (k : str -> prog).                              (* a call of an lru_cache'd pure function *)
+| PMemo (q : str) (k : str -> prog).                              (* a call of an lru_cache'd pure method *)
+
+Definition pp_fresh (p : pp) : pp :=
+  match p with
+  | PTrim => PTrim
+  | PLimit s => PLimit (LimitEmptyLines_init (LimitEmptyLines_max_empty_lines s))
+  end.
+
+Definition pp_clean (p : pp) : bool :=
+  match p with PTrim => true | PLimit s => (LimitEmptyLines_empty_line_count s =? 0)%Z end.
+Definition pps_clean (ps : list pp) : bool := forallb pp_clean ps.
+
+Record genobj := { go_cfg : N; go_pps : list pp; go_inputs : list tkey }.
+Record pstate := { p_uniq : UniqueNameGenerator_state; p_cache : cache; p_gens : list genobj }.
+
+(* one generated file, as the check observes it *)
+Record entry := {
+  e_cfg : N;              (* configuration (options + templates) of the generator that wrote it *)
+  e_pps0 : list pp;       (* that generator's line processors as constructed *)
+  e_key : tkey;
+  e_obj : tyobj;
+  e_clean : bool;         (* every LimitEmptyLines counter of the generator was 0 when the file was started *)
+  e_text : str }.
+
+Inductive op :=
+| ONew (c : N) (pps : list pp) (I : list tkey)    (* DSDLCodeGenerator(namespace built from I, options/templates c) *)
+| ORun (gid : nat) (order : list tkey)            (* generate_all() of generator gid, visiting the types in this order *)
+| OClear.                                        (* cache_clear() of every memo table *)
 
 Section Run.
-  Variable cfun : str -> str.             (* the memoised pure function *)
+  Variable U : universe.
+  Variable render : N -> tyobj -> prog.
+  Variable cfun : ckey -> str.            (* the memoised pure methods *)
   Variable maxsize : option nat.
+  Variable resets : bool.                 (* generate_code_resets_uniq *)
+  Variable lel_shared : bool.
 
-  Fixpoint run_prog (p : prog) (u : UniqueNameGenerator_state) (c : cache)
+  Fixpoint run_prog (self : N) (p : prog) (u : UniqueNameGenerator_state) (c : cache)
     : UniqueNameGenerator_state * cache * list str :=
     match p with
     | PDone => (u, c, [])
-    | PEmit s k => let '(u', c', out) := run_prog k u c in (u', c', s :: out)
+    | PEmit s k => let '(u', c', out) := run_prog self k u c in (u', c', s :: out)
     | PUniq key base pre suf k =>
-        let '(u1, name) := UniqueNameGenerator_call u key base pre suf in run_prog (k name) u1 c
+        let '(u1, name) := UniqueNameGenerator_call u key base pre suf in run_prog self (k name) u1 c
     | PMemo q k =>
-        let '(c1, v) := lru_call cfun maxsize c q in run_prog (k v) u c1
+        let '(c1, v) := lru_call cfun maxsize c (self, q) in run_prog self (k v) u c1
     end.
-
-  (* ---------------- process state ---------------- *)
-  Record gstate := { g_uniq : UniqueNameGenerator_state; g_pps : list pp; g_cache : cache }.
-
-  Definition pp_fresh (p : pp) : pp :=
-    match p with
-    | PTrim => PTrim
-    | PLimit s => PLimit (LimitEmptyLines_init (LimitEmptyLines_max_empty_lines s))
-    end.
-
-  Variable ty : Type.                     (* a type object together with everything reachable from it *)
-  Variable render : ty -> prog.           (* configuration and templates are fixed for a generator *)
-  Variable resets : bool.                 (* generate_code_resets_uniq *)
-  Variable lel_shared : bool.
 
   Definition write_file (ps : list pp) (chunks : list str) : list pp * str :=
     match ps with
@@ -90,46 +154,81 @@ Section Run.
     | _ => write_builtin ps chunks        (* _generate_with_line_buffer *)
     end.
 
-  Definition gen_file (g : gstate) (T : ty) : gstate * str :=
-    let u0 := if resets then UniqueNameGenerator_init else g_uniq g in
-    let '(u1, c1, chunks) := run_prog (render T) u0 (g_cache g) in
-    let ps0 := if lel_shared then g_pps g else map pp_fresh (g_pps g) in
+  (* _generate_code for the type object o under configuration cf *)
+  Definition gen_file (cf : N) (u : UniqueNameGenerator_state) (c : cache) (ps : list pp) (o : tyobj)
+    : UniqueNameGenerator_state * cache * list pp * str :=
+    let u0 := if resets then UniqueNameGenerator_init else u in
+    let '(u1, c1, chunks) := run_prog cf (render cf o) u0 c in
+    let ps0 := if lel_shared then ps else map pp_fresh ps in
     let '(ps1, text) := write_file ps0 chunks in
-    ({| g_uniq := u1; g_pps := ps1; g_cache := c1 |}, text).
+    (u1, c1, ps1, text).
 
-  Fixpoint run (g : gstate) (I : list ty) : gstate * list (ty * str) :=
-    match I with
-    | [] => (g, [])
-    | T :: I' =>
-        let '(g1, text) := gen_file g T in
-        let '(g2, fs) := run g1 I' in
-        (g2, (T, text) :: fs)
+  (* generate_all of one generator *)
+  Fixpoint run_types (cf : N) (I : list tkey) (u : UniqueNameGenerator_state) (c : cache) (ps : list pp)
+           (order : list tkey) : UniqueNameGenerator_state * cache * list pp * list entry :=
+    match order with
+    | [] => (u, c, ps, [])
+    | k :: order' =>
+        match resolve_in U I k with
+        | None => run_types cf I u c ps order'            (* not a type of this namespace *)
+        | Some o =>
+            let '(u1, c1, ps1, text) := gen_file cf u c ps o in
+            let '(u2, c2, ps2, es) := run_types cf I u1 c1 ps1 order' in
+            (u2, c2, ps2,
+             {| e_cfg := cf; e_pps0 := map pp_fresh ps; e_key := k; e_obj := o; e_clean := pps_clean ps;
+                e_text := text |} :: es)
+        end
     end.
 
-  (* a new interpreter, a new generator with the configured pipeline *)
-  Definition g_init (pps : list pp) : gstate :=
-    {| g_uniq := UniqueNameGenerator_init; g_pps := pps; g_cache := [] |}.
+  Fixpoint set_nth {A : Type} (n : nat) (x : A) (l : list A) : list A :=
+    match l, n with
+    | [], _ => []
+    | _ :: l', O => x :: l'
+    | y :: l', S n' => y :: set_nth n' x l'
+    end.
 
-  (* the file of T when T is generated alone by a fresh process *)
-  Definition alone (pps : list pp) (T : ty) : str := snd (gen_file (g_init pps) T).
+  Definition op_step (s : pstate) (o : op) : pstate * list entry :=
+    match o with
+    | ONew cf pps ins =>
+        ({| p_uniq := p_uniq s; p_cache := p_cache s;
+            p_gens := p_gens s ++ [{| go_cfg := cf; go_pps := pps; go_inputs := ins |}] |}, [])
+    | OClear => ({| p_uniq := p_uniq s; p_cache := []; p_gens := p_gens s |}, [])
+    | ORun gid order =>
+        match nth_error (p_gens s) gid with
+        | None => (s, [])
+        | Some g =>
+            let '(u1, c1, ps1, es) := run_types (go_cfg g) (go_inputs g) (p_uniq s) (p_cache s) (go_pps g) order in
+            ({| p_uniq := u1; p_cache := c1;
+                p_gens := set_nth gid {| go_cfg := go_cfg g; go_pps := ps1; go_inputs := go_inputs g |} (p_gens s) |},
+             es)
+        end
+    end.
 
-  (* the chunk stream of T's template in a fresh process *)
-  Definition file_chunks (T : ty) : list str := snd (run_prog (render T) UniqueNameGenerator_init []).
+  Fixpoint exec (s : pstate) (h : list op) : pstate * list entry :=
+    match h with
+    | [] => (s, [])
+    | o :: h' =>
+        let '(s1, es1) := op_step s o in
+        let '(s2, es2) := exec s1 h' in
+        (s2, es1 ++ es2)
+    end.
+
+  (* a new interpreter *)
+  Definition p_init : pstate := {| p_uniq := UniqueNameGenerator_init; p_cache := []; p_gens := [] |}.
+
+  (* everything written by a history that starts in a new interpreter *)
+  Definition log (h : list op) : list entry := snd (exec p_init h).
+
+  (* the file of o when it is the first and only file a new interpreter writes, with newly constructed processors *)
+  Definition alone (cf : N) (pps0 : list pp) (o : tyobj) : str :=
+    snd (gen_file cf UniqueNameGenerator_init [] pps0 o).
+
+  (* the chunk stream of o's template in a new interpreter *)
+  Definition file_chunks (cf : N) (o : tyobj) : list str :=
+    snd (run_prog cf (render cf o) UniqueNameGenerator_init []).
 End Run.
 
-Arguments g_uniq {_}. Arguments g_pps {_}. Arguments g_cache {_}.
-
 (* ---------------- predicates used in the statements ---------------- *)
-Definition pp_clean (p : pp) : bool :=
-  match p with PTrim => true | PLimit s => (LimitEmptyLines_empty_line_count s =? 0)%Z end.
-Definition pps_clean (ps : list pp) : bool := forallb pp_clean ps.
-
-Definition pp_wf (p : pp) : bool :=
-  match p with PTrim => true | PLimit s => (0 <=? LimitEmptyLines_max_empty_lines s)%Z end.
-Definition pps_wf (ps : list pp) : bool := forallb pp_wf ps.
-
-Definition has_limiter (ps : list pp) : bool :=
-  existsb (fun p => match p with PLimit _ => true | PTrim => false end) ps.
 
 (* the lines the line buffer hands to the processors, in order (pure counterpart of LinePP.feed) *)
 Fixpoint feed_lines (part lb : str) {struct part} : str * list line :=
@@ -172,6 +271,32 @@ Definition ends_solid (chunks : list str) : bool :=
   | l :: _ => solid l
   end.
 
+(* every file the history writes ends in a solid line and every generator is constructed with zeroed counters:
+   the side condition under which LimitEmptyLines cannot carry anything across a file boundary *)
+Section Solid.
+  Variable U : universe.
+  Variable render : N -> tyobj -> prog.
+  Variable cfun : ckey -> str.
+
+  Definition file_solid (cf : N) (I : list tkey) (k : tkey) : bool :=
+    match resolve_in U I k with
+    | None => true
+    | Some o => ends_solid (file_chunks render cfun None cf o)
+    end.
+
+  Fixpoint hist_solid (gens : list (N * list tkey)) (h : list op) : bool :=
+    match h with
+    | [] => true
+    | ONew cf pps ins :: h' => pps_clean pps && hist_solid (gens ++ [(cf, ins)]) h'
+    | OClear :: h' => hist_solid gens h'
+    | ORun gid order :: h' =>
+        match nth_error gens gid with
+        | None => true
+        | Some (cf, ins) => forallb (file_solid cf ins) order
+        end && hist_solid gens h'
+    end.
+End Solid.
+
 (* scripts: non-adaptive programs given as data (used by the correspondence run and the witnesses) *)
 Inductive item := IText (s : str) | IUniq (key base_token prefix suffix : str) | IMemo (q : str).
 
@@ -182,3 +307,33 @@ Fixpoint prog_of_script (s : list item) : prog :=
   | IUniq k b p x :: s' => PUniq k b p x (fun name => PEmit name (prog_of_script s'))
   | IMemo q :: s' => PMemo q (fun v => PEmit v (prog_of_script s'))
   end.
+
+(* rendering given as a table (configuration, type key) -> script; the type object's body and its dependencies' bodies
+   are appended as a comment so that the content depends on the closure *)
+Fixpoint obj_sig (fuel : nat) (o : tyobj) : str :=
+  match fuel, o with
+  | O, _ => []
+  | S f, TyObj k b deps => k ++ [58] ++ b ++ [40] ++ concat (map (obj_sig f) deps) ++ [41]
+  end.
+
+Fixpoint obj_depth (o : tyobj) : nat :=
+  match o with TyObj _ _ deps => S (fold_right (fun d m => Nat.max (obj_depth d) m) O deps) end.
+
+Definition table_render (tab : list (ckey * list item)) (cf : N) (o : tyobj) : prog :=
+  match o with
+  | TyObj k _ _ =>
+      match find (fun e => ckey_eqb (fst e) (cf, k)) tab with
+      | Some e => prog_of_script (snd e)
+      | None => PEmit (obj_sig (obj_depth o) o) PDone
+      end
+  end.
+
+(* the memoised function used by table-driven runs: depends on the object it is bound to and on the argument *)
+Definition table_cfun (k : ckey) : str := snd k ++ [64] ++ dec_of_N (fst k).
+
+Definition exec_table (U : universe) (tab : list (ckey * list item)) (maxsize : option nat) (resets lel_shared : bool)
+           (h : list op) : list entry :=
+  log U (table_render tab) table_cfun maxsize resets lel_shared h.
+
+Definition solid_table (U : universe) (tab : list (ckey * list item)) (h : list op) : bool :=
+  hist_solid U (table_render tab) table_cfun [] h.
